@@ -26,6 +26,9 @@ def run(tier, seed):
     absorb(ck, "C07", run_tasks(eval_task, [{"pid": "C07", "seed": seed, "i": i, "cfg": CFG} for i in range(n)]), CFG, "Model.Put")
     absorb(ck, "C07", run_tasks(eval_task, [{"pid": "C07m", "seed": seed, "i": i, "cfg": CFG_MULTI} for i in range(nm)]),
            CFG_MULTI, "Model.Put")
+    cfg_states = dict(CFG, states=True, violations=tuple(CFG["violations"]) + ("C07-private",))
+    absorb(ck, "C07", run_tasks(eval_task, [{"pid": "C07s", "seed": seed, "i": i, "cfg": cfg_states} for i in range(80 if tier == "quick" else 1200)]),
+           cfg_states, "Model.Put")
     search_failing_input(ck, "C07", seed, CFG, n, "Model.Put")
     # "created on demand": several trash-put processes using a trash directory for the first time at the same moment -
     # whoever loses the race to create it still finds it usable
